@@ -24,7 +24,7 @@ def sweep_model(chk):
     cfg = "T1dImpl_" + chk.tier
     d = vlib.scratch("C14-sweep")
     out = os.path.join(d, "finals.out")
-    res = vlib.tlc_ok(vlib.tlc("T1dImpl", cfg=cfg, workers=16, coverage=True, stdout_path=out, timeout=3000, xmx="16g"), cfg)
+    res = vlib.tlc_ok(vlib.tlc("T1dImpl", cfg=cfg, workers=16, coverage=True, stdout_path=out, timeout=3000, xmx="10g"), cfg)
     if res["violated"]:
         raise vlib.FrameworkError("T1dImpl violates its own invariants: %s" % res["violated"])
     for act in ("Push", "PushOnce", "EndPush", "Flush"):
@@ -51,7 +51,7 @@ def run(chk):
     d = vlib.scratch("C14-emit")
     out = os.path.join(d, "cases.out")
     cfg = "Transport1d_" + chk.tier
-    res = vlib.tlc_ok(vlib.tlc("Transport1d", cfg=cfg, workers=16, stdout_path=out, timeout=3000, xmx="16g"), cfg)
+    res = vlib.tlc_ok(vlib.tlc("Transport1d", cfg=cfg, workers=16, stdout_path=out, timeout=3000, xmx="10g"), cfg)
     chk.add_tlc(res, "tlc enumeration of all tiny 1-D instances (" + cfg + ")")
     results, d2, allruns, exe = tracecheck.cases_and_validate(chk, "asan", "record_algo", out, cfg)
     tracecheck.attribute(chk, results, "C14", exe, "t1d", "asan", d2, module="TraceAlgo", exe_name="record_algo")
